@@ -150,9 +150,13 @@ func (r *recallWantlist) removeType(c cid.Cid, wtype pb.Message_Wantlist_WantTyp
 // Returns true if the want was marked as sent. Returns false if the want wasn't
 // pending.
 func (r *recallWantlist) markSent(e bswl.Entry) bool {
-	if !r.pending.RemoveType(e.Cid, e.WantType) {
+	// The pending want must still be the one that was put into the message:
+	// a want-have that replaced a canceled want-block must not go out as the
+	// stale want-block.
+	if cur, ok := r.pending.Get(e.Cid); !ok || cur.WantType != e.WantType {
 		return false
 	}
+	r.pending.Remove(e.Cid)
 	r.sent.Add(e.Cid, e.Priority, e.WantType)
 	return true
 }
